@@ -20,6 +20,7 @@ RULE = (
     "ever entered (checked after all gates are opened and the pool drained); no pool submit / task creation / inline "
     "entry after the wait that handed the failed future to the scheduler; with no failing node the call does not "
     "raise. non-trivial = a failing node ran, has >= 1 descendant, and >= 1 other node was inside its function when it failed."
+    " Round 8-10 additions: failing debug sites (flag on); half of the injected failures are raised `from` a low-level exception (the cause carried by tawazi's exception must be the node's exception); warnings as errors."
 )
 ASSUMPTIONS = ["failures are Exception subclasses (tawazi's own errors derive from BaseException on purpose)"]
 BUDGET = {"quick": {"shards": 8, "seconds": 40}, "thorough": {"shards": 16, "seconds": 420}}
